@@ -106,7 +106,7 @@ def run(ctx):
     # U2: TLC enumerates the cases with the demanded layouts / verdicts
     extra = "{}" if quick else "{2, 255, 256, 257, 65534}"
     # verifier histories: all sequences of <= SEQFULL operations over the whole alphabet (41 operations), longer ones
-    # up to SEQRED over the reduced alphabet (11 operations), per key type
+    # up to SEQRED over the reduced alphabet (10 operations), per key type
     seqfull, seqred = (2, 3) if quick else (3, 4)
     r = ctx.tlc("CTCodecGen", "CTCodec_gen.cfg", subst={"EXTRA": extra, "SEQFULL": seqfull, "SEQRED": seqred},
                 workers=1, timeout=3000, label="CTCodecGen")
